@@ -492,7 +492,7 @@ def gen_pc_streams(rng, n):
             tmap.append([rng.choice(tids), tmap[0][1], rng.choice(PC_NAMES)])
         s = PL.Stream(rng)
         s.ts = 256 * rng.randrange(1, 1000)
-        for _ in range(rng.randrange(1, 10)):
+        for _ in range(rng.randrange(1, 14)):
             tid = rng.choice(tids)
             k = rng.random()
             if k < 0.22:
@@ -517,8 +517,18 @@ def gen_pc_streams(rng, n):
                 s.syscall('BSC_getpid', tid, [0, 0, 0, 0], [0, rng.randrange(1000), 0, 0])
             elif k < 0.86:
                 s.syscall('BSC_open', tid, [1, 2, 3, 4], [0, 3, 0, 0], [('/p/%d' % rng.randrange(99) + 'x' * rng.choice([0, 30]), 9)])
-            elif k < 0.93:
+            elif k < 0.90:
                 s.ev('MACH_SCHED', PL.NONE, tid, [1, 2, 3, 4])
+            elif k < 0.95:
+                # records that must be NEUTRAL for the attribution: thread-terminate (naming a declared or an undeclared
+                # thread), thread names, global strings
+                r = rng.random()
+                if r < 0.6:
+                    s.ev('TRACE_DATA_THREAD_TERMINATE', PL.NONE, tid, [rng.choice(tids + [4242]), 0, 0, 0])
+                elif r < 0.8:
+                    s.threadname(tid, 'worker-%d' % rng.randrange(99), rng.random() < 0.3)
+                else:
+                    s.gstring(tid, rng.randrange(1, 9), 'str%d' % rng.randrange(99) + 'y' * rng.choice([0, 30]))
             else:
                 s.ev('TRACE_STRING_PROC_EXIT', PL.NONE, tid, data=s.name32('exit%d' % rng.randrange(9)))
         recs = s.recs
@@ -824,6 +834,8 @@ def product(streams_, color_opts=(None,)):
 
 
 def correspondence(rep, rng, tier):
+    from .. import pipeline as _PL
+    _PL.section_e2e(rep, rng, tier, n=(120 if tier == 'quick' else 4000))
     k = 1 if tier == 'quick' else 20
     run_section(rep, 'format-primitives', gen_primitives(rng, tier), prim_line, prim_impl, prim_oracle,
                 nontrivial_fn=lambda c, g: g.startswith('ok'), kind_fn=lambda c, g: c[0], rule=RULES['format-primitives'])
